@@ -44,6 +44,20 @@ impl Prop for C12 {
                 mark("probe.near_variant_scanners");
             }
         }
+        if rng.chance(1, 2) {
+            // a sibling input of exactly the same byte length but different text (rotated): a parser
+            // that reuses its line buffer hands the scanner the same address and length again
+            let src = rng.pick(&gw.world.inputs).clone();
+            let cs: Vec<char> = src.chars().collect();
+            if cs.len() >= 2 {
+                let r = rng.range(1, cs.len() - 1);
+                let rotated: String = cs[r..].iter().chain(cs[..r].iter()).collect();
+                if rotated != src {
+                    gw.world.inputs.push(rotated);
+                    mark("probe.same_length_sibling_input");
+                }
+            }
+        }
         gw.world
     }
     fn new_gen<'w>(&self, world: &'w World, rng: &mut Rng) -> Box<dyn Gen + 'w> {
@@ -85,7 +99,7 @@ impl Prop for C12 {
         &[
             "probe.two_live_iters_two_ctx_switches", "probe.neighbour_midstream_in_other_mode", "probe.shared_scanner",
             "probe.two_handles_one_cached_compilation", "probe.unrelated_scanners", "probe.scanner_reused_for_second_input",
-            "probe.scanner_rebuilt_while_iterators_live", "probe.near_variant_scanners", "probe.scanner_dropped_while_iterators_live", "probe.solo_replays",
+            "probe.scanner_rebuilt_while_iterators_live", "probe.near_variant_scanners", "probe.same_length_sibling_input", "probe.scanner_dropped_while_iterators_live", "probe.solo_replays",
             "probe.policy_uniform", "probe.policy_bursty", "probe.policy_pct", "probe.policy_round_robin",
             "fault.abandon", "fault.mode_override",
         ]
@@ -203,11 +217,15 @@ impl<'w> Gen for Gen12<'w> {
     }
 }
 
-struct Live<'w> {
-    f: FindMatches<'w>,
+/// An iterator together with the buffer it scans. Every iterator gets its OWN heap copy of the
+/// input, freed when the iterator goes away, so that later iterators are handed recycled
+/// addresses with other text behind them (what a parser reusing its buffer does).
+struct Live {
+    // field order matters: the iterator is dropped before the buffer it borrows
+    f: FindMatches<'static>,
+    buf: Box<str>,
     inst: usize,
     sc: usize,
-    input: &'w str,
     n_modes: usize,
     last_peek: Option<Vec<Tok>>,
     nexts: usize,
@@ -225,7 +243,7 @@ struct Inst {
 struct Exec12<'w> {
     world: &'w World,
     scanners: Vec<Option<(Scanner, usize, BuildHow, usize)>>,
-    iters: Vec<Option<Live<'w>>>,
+    iters: Vec<Option<Live>>,
     insts: Vec<Inst>,
     last_inst: Option<usize>,
     switches: usize,
@@ -388,13 +406,19 @@ impl<'w> Exec for Exec12<'w> {
                 if self.iters.iter().flatten().any(|l| l.sc == *sc) {
                     mark("probe.shared_scanner");
                 }
-                let mut f = s.find_iter(inp);
+                // the previous occupant of the slot goes away first, so that its buffer can be recycled
+                self.iters[*it] = None;
+                let buf: Box<str> = inp.to_string().into_boxed_str();
+                // SAFETY: `buf` is heap-allocated, never mutated, and outlives `f`: both live in the
+                // same `Live` value and `f` is declared (hence dropped) first.
+                let text: &'static str = unsafe { &*(&*buf as *const str) };
+                let mut f = s.find_iter(text);
                 if let Some(o) = with_offset {
                     f = f.with_offset(*o);
                 }
                 let inst = self.insts.len();
                 self.insts.push(Inst { cfg: *cfg, how: *how, input: *input, with_offset: *with_offset, recs: vec![] });
-                self.iters[*it] = Some(Live { f, inst, sc: *sc, input: inp, n_modes: world.configs[*cfg].len(), last_peek: None, nexts: 0, exhausted: false });
+                self.iters[*it] = Some(Live { f, buf, inst, sc: *sc, n_modes: world.configs[*cfg].len(), last_peek: None, nexts: 0, exhausted: false });
                 StepOut::ok(Obs::Unit)
             }
             Op::DropIter { it } => {
@@ -438,7 +462,7 @@ impl<'w> Exec for Exec12<'w> {
                 if matches!(op, Op::SetModeIter { .. }) {
                     bump("fault.mode_override");
                 }
-                let Some(obs) = apply(&mut l.f, l.input, l.n_modes, &mut l.last_peek, op) else { return StepOut::skipped() };
+                let Some(obs) = apply(&mut l.f, &l.buf, l.n_modes, &mut l.last_peek, op) else { return StepOut::skipped() };
                 if let Obs::Tok(t) = &obs {
                     l.nexts += 1;
                     if t.is_none() {
